@@ -36,11 +36,37 @@ def run(ctx):
     ssum = json.load(open(os.path.join(d, 'summary.json')))
     rejects, lines = vlib.tlc_trace(ctx, 'Trace_Run', os.path.join(d, 'run.ndjson'), shards=8)
     confirm(ctx, exe, rejects, lines)
-    cov = dict(evaluations=ssum['RunDone'] + msum['replayed'], distinct_nontrivial=ssum['StatusMixes'],
+    # (V) hostile but parseable inputs (the mutation plan of C02, the several-offender inputs of Plan_Multi, names planted on
+    #     templates): a run must still return - an escaping panic or a hang is a violation of C01 as well
+    rec, pout = vlib.tlc_mc(ctx, 'Plan_Mutate', 'Plan_Mutate', workers=1)
+    exp2 = ctx.path('plan.out')
+    open(exp2, 'w').write(pout)
+    from checks import histcommon
+    histcommon.plan_multi(ctx)
+    vlib.GOENV['VERIF_MULTI_FULL'] = '1'
+    vlib.GOENV['VERIF_MULTI_SKIP'] = 'kueku'
+    dm = vlib.drive(ctx, exe, 'mutate', env={'VERIF_EXPORT': exp2}, timeout=7000)
+    mutsum = json.load(open(os.path.join(dm, 'summary.json')))
+    mrej, mlines = vlib.tlc_trace(ctx, 'Trace_NoPanic', os.path.join(dm, 'mutate.ndjson'), shards=4)
+    seen = set()
+    for (ln, payload) in mrej:
+        e = json.loads(mlines[ln - 1])
+        for (why, who) in payload[0]:
+            if why not in ('panic-escaped', 'hang') or (why, who) in seen or len(seen) > 6:
+                continue
+            seen.add((why, who))
+            vlib.report(ctx, 'hostile-input:%s:%s' % (who, why), 'Lint*Ex on a parser-accepted %s did not return normally (%s): %s mutated by %s at %s%s' % (
+                who, why, e['base'], e['op'], e['path'], (' panic=' + e.get('panicMsg', '')[:160]) if e.get('escaped') else ''),
+                dict(kind='mutate', base=e['base'], path=e['path'], op=e['op'], der_b64=e.get('der')))
+    dp = vlib.drive(ctx, exe, 'plant')
+    for pnc in (json.load(open(os.path.join(dp, 'panics.json'))) or [])[:6]:
+        if 'recovered' not in pnc:
+            vlib.report(ctx, 'planted-input:escaped-or-hung', 'Lint*Ex did not return normally on %s: %s' % (pnc['id'], pnc.get('escaped') or 'hung'), dict(kind='plant', id=pnc['id'], der_b64=pnc.get('der')))
+    cov = dict(evaluations=ssum['RunDone'] + msum['replayed'] + mutsum['parsed'], distinct_nontrivial=ssum['StatusMixes'],
                rule='evaluation = one Lint*Ex call on (object, registry): corpus objects x (full registry + filtered registries), plus every '
                     'terminal state of MC_Run replayed with mock lints; non-trivial = distinct (kind, set of statuses present) with >= 2 statuses',
                samples=[msum['sample']] + ssum['Samples'][1:], model_cases_replayed=msum['replayed'], model_cases=msum['cases'],
-               objects=ssum['Objects'], exhaustive=False,
+               objects=ssum['Objects'], hostile_inputs=mutsum['parsed'], exhaustive=False,
                trusted_base=['zcrypto x509 parser', 'x/crypto ocsp parser', 'reflect.DeepEqual for metadata equality'])
     return vlib.finish(ctx, 'model_checking', cov, ASSUME)
 
